@@ -75,6 +75,18 @@ CLAIMED["C11"] = dict(cat="model_checking", ref="DESIGN.md 6 C11",
    note="Bounded exhaustive over names of length <= 2 (quick) / 3 (thorough); names containing '_' are outside DNS-1123 and not generated.",
    tech="TLA+ spec evaluated exhaustively by TLC to produce expected values + vector replay into the real codec and HTTP handlers")
 
+CLAIMED["C12"] = dict(cat="model_checking", ref="DESIGN.md 6 C12",
+   text="CNIMux.tla specifies network selection (annotation in comma and JSON form, ENI network, defaults, interface naming), ADD with rollback, DEL with retry of exactly the failed plugins and the saved list per container; TLC checks "
+        "PairLaw/RepeatLaw/RetryLaw on the specification, enumerates all bounded scenarios and computes the expected invocation sequence, response and saved list of every request; a seeded sample of scenarios is executed against the real "
+        "galaxy daemon over its unix socket with recording plugin binaries and every invocation (command, network, interface, configuration, CNI_ARGS, previous result) is compared.",
+   note="Trusted: the recording plugin, the fake API client for the pod lookup. The daemon's socket and state directory are fixed paths (checks take a file lock). Concurrent requests are exercised only in the thorough tier.",
+   tech="TLA+ spec evaluated exhaustively by TLC to produce expected behaviours + replay into the real daemon over its socket")
+CLAIMED["C13"] = dict(cat="translation_validation", ref="DESIGN.md 6 C13",
+   text="The property is that a composition (FloatingIP objects + pool configuration -> Bind's annotation -> daemon's argument passing -> plugins' decoder) is the identity. Deliver.tla states it and TLC enumerates the pool attribute tuples; "
+        "each vector is run end to end through the real Bind, the real daemon and the plugins' own decoder (cni/ipam.Allocate) and the decoded (address, prefix length, gateway, vlan) list is compared with the allocation.",
+   note="A specification adds little beyond stating the identity here; the value is the end-to-end run over the enumerated attribute space. Kernel-side configuration by the vendored plugins is not covered.",
+   tech="TLC-enumerated input space + end-to-end differential run of the real encoder/transport/decoder chain")
+
 NA = {
  "C19": "data races are below the granularity of an action-level TLA+ specification; deciding them needs a race detector / lock-set analysis, i.e. another technique (DESIGN.md section 1)",
 }
